@@ -632,7 +632,7 @@ def check_layer(case, res, viol, fq, im, n, fl, L, cls, feat, io_n, sb, sp, is_l
                 stab = abs(a_) * sw[c] * abs(gx - sx)
                 if bname == 'MATCH' or (is_conv and bname == 'MAUPITI'):
                     got = F(yi) * sx * sw[c]
-                    tol = stab + fl_slack
+                    tol = stab + fl_slack + (abs(a_) + abs(nbq[c])) * sx * sw[c] / 2 ** 23      # acc + int_bias in float32
                 else:
                     got = F(yi)
                     tol = abs(a_ + nbq[c]) * abs(a_coef - sx * sw[c]) + stab + fl_slack + \
@@ -758,7 +758,9 @@ def check_layer(case, res, viol, fq, im, n, fl, L, cls, feat, io_n, sb, sp, is_l
             kind='fq', real=chan_lists(y_fq, CAP), skip=skip, top=int(top_real), what='fake-quantized layer: integer image of the output')
     else:
         if bname == 'MATCH' or is_conv:
-            add('matchlast nb=%s acc=%s' % (rl(nb), rl2(accM)), kind='ints2', real=chan_lists(y_int, CAP), skip=None,
+            # acc + int_bias is a float32 addition: exact below 2^24 only
+            skip = [[abs(int(a)) + abs(nb[c]) >= 2 ** 24 for a in accM[c]] for c in range(cout)]
+            add('matchlast nb=%s acc=%s' % (rl(nb), rl2(accM)), kind='ints2', real=chan_lists(y_int, CAP), skip=skip,
                 what='last layer output (acc + int_bias)')
         else:
             accp = Fn.linear(x_int.double(), Wi.double())
@@ -794,7 +796,7 @@ def canon_ints(real, model, skip):
     for i, (a, b) in enumerate(zip(real, model)):
         sk = bool(skip[i]) if skip is not None else False
         ai = int(a) if isinstance(a, (int, float)) and math.isfinite(a) and a == int(a) else a
-        if sk and isinstance(ai, int) and abs(ai - b) <= 1:
+        if sk and isinstance(ai, int) and abs(ai - b) <= 1 + abs(b) // 2 ** 23:     # float32 error at that magnitude
             r.append('~')
             m.append('~')
         else:
